@@ -1,6 +1,15 @@
 """C16 - see DESIGN.md section 5/C16.  Bounded stand-in (bounded/C16.py) of the property's
-contract on the real code; labelled bounded, never counted as proved."""
+contract on the real code; labelled bounded, never counted as proved.
+
+Deductive part (contracts/linear_labels.py): _map_substrates_to_labelmap is proved, for
+every injective in-range map, to write the substrate at position i to result position
+labelmap[i] - the INVERSE of the documented reading used by the isotopomer mapper
+(result[i] = substrates[labelmap[i]]).  This is the deductive side of the known finding
+"linear mapper reads the map in the inverse direction", which the bounded part replays
+with concrete non-involutive maps."""
 from props._runner import run
 
 if __name__ == "__main__":
-    run("C16", "exploration", notes="C16: run-time contract on the real code over an enumerated small scope (bounded stand-in)")
+    run("C16", "exploration", files=["linear_labels.py"],
+        notes="C16: run-time contract on the real code over an enumerated small scope (bounded stand-in, deciding); "
+              "direction of _map_substrates_to_labelmap characterised by a proved contract (known finding)")
